@@ -193,8 +193,10 @@ func checkC19(ctx *Ctx, r *Report) {
 	for _, f := range fns {
 		c19CheckFunc(ctx, r, o, f.fd, f.obj)
 		c19ZeroValueAndEquality(ctx, r, o, f.fd, f.obj)
+		c19SecondHunt(ctx, r, o, f.fd, f.obj)
 	}
 	r.Floor("orderedmap functions", 12)
+	r.Floor("loops of the ordered map that call a callback", 1)
 	r.Floor("omap stores into the records of the receiver", 1)
 	r.Floor("omap writers classified", 3)
 	r.Floor("omap observer loops", 3)
@@ -291,6 +293,11 @@ func c19CheckFunc(ctx *Ctx, r *Report, o *omapInfo, fd *ast.FuncDecl, obj *types
 				for _, a := range x.Args {
 					consumed[ast.Unparen(a)] = true
 				}
+				return true
+			}
+			// `append(<fresh>, recv.order...)`: a snapshot of the order, the field itself is only read
+			if isBuiltinCall(info, x, "append") && x.Ellipsis.IsValid() && len(x.Args) == 2 && o.isOrd(x.Args[1]) && !o.isOrd(x.Args[0]) && !o.isRec(x.Args[0]) {
+				consumed[ast.Unparen(x.Args[1])] = true
 				return true
 			}
 			for _, a := range x.Args {
@@ -544,6 +551,35 @@ func c19CheckFunc(ctx *Ctx, r *Report, o *omapInfo, fd *ast.FuncDecl, obj *types
 	// than the receiver must be on a fresh map and (inside a loop over order)
 	// use the loop key.
 	fresh := o.freshLocals(fd)
+	// iterPair: when `n` sits in a function literal handed to the receiver's own Iterate, the (key, value) parameters
+	// of that literal — Iterate produces the live pairs, in order (checked on Iterate itself)
+	iterPair := func(n ast.Node) (types.Object, types.Object) {
+		lit := enclosingFuncLit(parents, n)
+		if lit == nil || o.iterFn == nil {
+			return nil, nil
+		}
+		c, ok := parents[lit].(*ast.CallExpr)
+		if !ok || callee(info, c) != o.iterFn {
+			return nil, nil
+		}
+		sel, ok := c.Fun.(*ast.SelectorExpr)
+		if !ok {
+			return nil, nil
+		}
+		if id, ok := ast.Unparen(sel.X).(*ast.Ident); !ok || objOf(info, id) != recvObj {
+			return nil, nil
+		}
+		var ps []types.Object
+		for _, f := range lit.Type.Params.List {
+			for _, nm := range f.Names {
+				ps = append(ps, info.Defs[nm])
+			}
+		}
+		if len(ps) != 2 {
+			return nil, nil
+		}
+		return ps[0], ps[1]
+	}
 	ast.Inspect(fd.Body, func(n ast.Node) bool {
 		call, ok := n.(*ast.CallExpr)
 		if !ok || callee(info, call) != o.setFn {
@@ -593,10 +629,14 @@ func c19CheckFunc(ctx *Ctx, r *Report, o *omapInfo, fd *ast.FuncDecl, obj *types
 					}
 				}
 				r.Check(pos, "omap/filter-polarity", name, call.Pos(), "element kept exactly under a positive predicate result", "element is not kept under `if predicate(key, value)` (negated, else-branch or unconditional)")
-				// kept value is records[key]
+				// kept value is records[key] — or the pair the receiver's own Iterate hands to the callback
 				if len(call.Args) == 2 {
 					ix, _ := ast.Unparen(call.Args[1]).(*ast.IndexExpr)
-					r.Check(ix != nil && o.isRec(ix.X) && sameAccessPath(info, ix.Index, call.Args[0]), "omap/filter-value", name, call.Pos(), "kept value is records[key] of the same key", "kept value is not the receiver's record for the same key")
+					if kp, vp := iterPair(call); kp != nil {
+						r.Check(isIdentOf(info, call.Args[0], kp) && isIdentOf(info, call.Args[1], vp), "omap/filter-value", name, call.Pos(), "kept pair is the one Iterate produced", "kept value is not the receiver's record for the same key")
+					} else {
+						r.Check(ix != nil && o.isRec(ix.X) && sameAccessPath(info, ix.Index, call.Args[0]), "omap/filter-value", name, call.Pos(), "kept value is records[key] of the same key", "kept value is not the receiver's record for the same key")
+					}
 				}
 			} else {
 				// mapping callback: Set must be unconditional within the loop and value = cb(key, records[key])
@@ -609,6 +649,10 @@ func c19CheckFunc(ctx *Ctx, r *Report, o *omapInfo, fd *ast.FuncDecl, obj *types
 						if id, ok := cc.Fun.(*ast.Ident); ok && objOf(info, id) == cb && len(cc.Args) == 2 {
 							ix, _ := ast.Unparen(cc.Args[1]).(*ast.IndexExpr)
 							okv = sameAccessPath(info, cc.Args[0], call.Args[0]) && ix != nil && o.isRec(ix.X) && sameAccessPath(info, ix.Index, call.Args[0])
+							// or the pair the receiver's own Iterate hands to the callback
+							if kp, vp := iterPair(call); kp != nil {
+								okv = isIdentOf(info, call.Args[0], kp) && isIdentOf(info, cc.Args[0], kp) && isIdentOf(info, cc.Args[1], vp)
+							}
 						}
 					}
 					r.Check(okv, "omap/map-value", name, call.Pos(), "mapped value is callback(key, records[key])", "mapped value is not callback(key, records[key]) for the loop key")
@@ -618,6 +662,30 @@ func c19CheckFunc(ctx *Ctx, r *Report, o *omapInfo, fd *ast.FuncDecl, obj *types
 		return true
 	})
 
+	// locals holding a snapshot of the receiver's order: `keys := append([]K(nil), recv.order...)`
+	snapshots := map[types.Object]bool{}
+	ast.Inspect(fd.Body, func(n ast.Node) bool {
+		as, ok := n.(*ast.AssignStmt)
+		if !ok || as.Tok != token.DEFINE || len(as.Lhs) != 1 || len(as.Rhs) != 1 {
+			return true
+		}
+		c, ok := ast.Unparen(as.Rhs[0]).(*ast.CallExpr)
+		if !ok || !isBuiltinCall(info, c, "append") || !c.Ellipsis.IsValid() || len(c.Args) != 2 || !o.isOrd(c.Args[1]) || !onRecv(c.Args[1]) {
+			return true
+		}
+		if id, ok := as.Lhs[0].(*ast.Ident); ok {
+			snapshots[info.Defs[id]] = true
+		}
+		return true
+	})
+	isOrder := func(e ast.Expr) bool {
+		if o.isOrd(e) {
+			return true
+		}
+		id, ok := ast.Unparen(e).(*ast.Ident)
+		return ok && snapshots[objOf(info, id)]
+	}
+
 	// ---- observers: loops
 	ast.Inspect(fd.Body, func(n ast.Node) bool {
 		switch x := n.(type) {
@@ -626,7 +694,7 @@ func c19CheckFunc(ctx *Ctx, r *Report, o *omapInfo, fd *ast.FuncDecl, obj *types
 				r.Bad("omap/observe-order", name, x.Pos(), "iterates the hash map `records`: iteration order is the runtime's, not first-insertion order")
 				return true
 			}
-			if o.isOrd(x.X) {
+			if isOrder(x.X) {
 				r.Count("omap observer loops", 1)
 				val, _ := x.Value.(*ast.Ident)
 				var elem types.Object
@@ -674,7 +742,7 @@ func c19CheckFunc(ctx *Ctx, r *Report, o *omapInfo, fd *ast.FuncDecl, obj *types
 		if (hasCb || sliceRes) && !isSort && obj.Name() != "MarshalJSON" {
 			walks := false
 			ast.Inspect(fd.Body, func(n ast.Node) bool {
-				if rs, ok := n.(*ast.RangeStmt); ok && o.isOrd(rs.X) && onRecv(rs.X) {
+				if rs, ok := n.(*ast.RangeStmt); ok && ((o.isOrd(rs.X) && onRecv(rs.X)) || isOrder(rs.X)) {
 					walks = true
 				}
 				if c, ok := n.(*ast.CallExpr); ok && o.iterFn != nil && callee(info, c) == o.iterFn {
@@ -1160,4 +1228,88 @@ func c19JSONKeys(ctx *Ctx, r *Report, o *omapInfo) {
 	r.Check(stringsOnly || !asserts, "omap/json-keys-are-strings", "orderedmap JSON methods and the key type", at,
 		"the key type is constrained to strings, or the decoded key is converted rather than asserted",
 		"Map is generic in any comparable key type but UnmarshalJSON asserts the decoded key token (a string) to K and MarshalJSON encodes the key as a JSON value: with `type name string` the bytes the map produced cannot be decoded back, with integer keys MarshalJSON returns invalid JSON without an error")
+}
+
+// c19SecondHunt — three edges of the ordered map (second hunting pass).
+// (a) encoding/json calls a MarshalJSON with a pointer receiver only on addressable values: a Map held by value (a
+// struct field, the value of another map) is otherwise encoded as a struct without exported fields, `{}`. MarshalJSON
+// has a value receiver. (b) a method that calls a function it was given (Iterate, Map, Filter) hands control to code
+// that may remove keys from, or sort, the very map: it must not call it from inside a loop over the order field
+// itself, and inside the loop over a snapshot it reads the record with the comma-ok form so that a key removed in the
+// meantime is skipped. (c) UnmarshalJSON treats the JSON literal null as a no-op, as encoding/json documents for custom
+// decoders and as the map's own encoding of a nil map requires.
+func c19SecondHunt(ctx *Ctx, r *Report, o *omapInfo, fd *ast.FuncDecl, obj *types.Func) {
+	info := o.info
+	sig, _ := obj.Type().(*types.Signature)
+	if sig == nil || sig.Recv() == nil {
+		return
+	}
+	name := "orderedmap.Map." + obj.Name()
+	// (a)
+	if obj.Name() == "MarshalJSON" {
+		_, ptr := sig.Recv().Type().(*types.Pointer)
+		r.Count("hunted clauses of the ordered map (2nd hunt)", 1)
+		r.Check(!ptr, "omap/json-by-value", name+" receiver", fd.Pos(), "value receiver: encoding/json calls it for maps held by value too",
+			"MarshalJSON has a pointer receiver: encoding/json does not call it for a value that is not addressable — a struct field of type Map, a Map stored in another Map — and encodes `{}` (a struct without exported fields) with no error")
+	}
+	// (b)
+	callbacks := map[types.Object]bool{}
+	for i := 0; i < sig.Params().Len(); i++ {
+		if _, ok := sig.Params().At(i).Type().Underlying().(*types.Signature); ok {
+			callbacks[sig.Params().At(i)] = true
+		}
+	}
+	if len(callbacks) > 0 {
+		ast.Inspect(fd.Body, func(n ast.Node) bool {
+			rs, ok := n.(*ast.RangeStmt)
+			if !ok {
+				return true
+			}
+			callsBack := token.NoPos
+			ast.Inspect(rs.Body, func(m ast.Node) bool {
+				if c, ok := m.(*ast.CallExpr); ok {
+					if id, ok := c.Fun.(*ast.Ident); ok && callbacks[objOf(info, id)] && callsBack == token.NoPos {
+						callsBack = c.Pos()
+					}
+				}
+				return true
+			})
+			if callsBack == token.NoPos {
+				return true
+			}
+			r.Count("loops of the ordered map that call a callback", 1)
+			if o.isOrd(rs.X) {
+				r.Bad("omap/callback-on-snapshot", name+" calls its callback while ranging over order", rs.Pos(),
+					"the callback is called from inside a loop over the order field itself: a callback that removes a key still gets it later (with the zero value — Filter and Map copy that dead key into the derived map), one that sorts makes a key come twice and another never")
+				return true
+			}
+			// over a snapshot: the record is read with the comma-ok form and a dead key skipped
+			live := false
+			ast.Inspect(rs.Body, func(m ast.Node) bool {
+				as, ok := m.(*ast.AssignStmt)
+				if ok && len(as.Lhs) == 2 && len(as.Rhs) == 1 {
+					if ix, ok := ast.Unparen(as.Rhs[0]).(*ast.IndexExpr); ok && o.isRec(ix.X) {
+						live = true
+					}
+				}
+				return true
+			})
+			r.Check(live, "omap/callback-on-snapshot", name+" skips keys removed during the iteration", rs.Pos(), "the record is read with the comma-ok form before the callback is called",
+				"the loop calls the callback with records[key] without testing that the key is still there: a key removed by an earlier callback is produced with the zero value")
+			return true
+		})
+	}
+	// (c)
+	if obj.Name() == "UnmarshalJSON" {
+		null := false
+		ast.Inspect(fd.Body, func(n ast.Node) bool {
+			if lit, ok := n.(*ast.BasicLit); ok && lit.Kind == token.STRING && lit.Value == `"null"` {
+				null = true
+			}
+			return true
+		})
+		r.Count("hunted clauses of the ordered map (2nd hunt)", 1)
+		r.Check(null, "omap/decode-null", name+" accepts null", fd.Pos(), "the JSON literal null is handled",
+			"UnmarshalJSON demands `{`: it rejects null, which is what a nil map is encoded to and what encoding/json hands to a custom decoder for a null value — `\"Objects\": null` can not be read back")
+	}
 }
